@@ -425,6 +425,11 @@ impl Context {
 
 #[cfg(feature = "verif")]
 impl Context {
+    /// The number of states and of memory blocks (cheap: called before every instruction).
+    pub fn verif_counts(&self) -> (usize, usize) {
+        (self.states.len(), self.memory_blocks.len())
+    }
+
     /// For every state, the index of its memory block and whether it collects arguments.
     pub fn verif_states(&self) -> Vec<(usize, bool)> {
         self.states
